@@ -63,6 +63,8 @@ type Sim struct {
 	last   string
 	out    func(op, obs string)
 	start  time.Time
+
+	HangDump string // goroutine stacks at the moment the Stop watchdog fired
 }
 
 var setupOnce sync.Once
@@ -83,7 +85,7 @@ func Setup() {
 				l.SetLevel(btclog.LevelDebug)
 				neutrino.UseLogger(l)
 				q := be.Logger("QURY")
-				q.SetLevel(btclog.LevelDebug)
+				q.SetLevel(btclog.LevelTrace)
 				query.UseLogger(q)
 				pl := be.Logger("PEER")
 				pl.SetLevel(btclog.LevelDebug)
@@ -148,7 +150,12 @@ func New(sc Scenario, rng *rand.Rand, out func(op, obs string)) (*Sim, error) {
 }
 
 // open creates the database and a fresh ChainService over s.Dir.
-func (s *Sim) open() error {
+func (s *Sim) open() error { return s.openWith(true) }
+
+// reopen: a fresh, never started ChainService over the same directory (no peers)
+func (s *Sim) reopen() error { return s.openWith(false) }
+
+func (s *Sim) openWith(withPeers bool) error {
 	dbPath := filepath.Join(s.Dir, "neutrino.db")
 	var db walletdb.DB
 	var err error
@@ -164,6 +171,9 @@ func (s *Sim) open() error {
 	addrs := make([]string, len(s.Peers))
 	for i, p := range s.Peers {
 		addrs[i] = p.Addr
+	}
+	if !withPeers {
+		addrs = nil
 	}
 	cfg := neutrino.Config{
 		DataDir:          s.Dir,
@@ -543,6 +553,7 @@ func (s *Sim) Stop() time.Duration {
 	case <-done:
 		d = time.Since(t0)
 	case <-time.After(15 * time.Second):
+		s.HangDump = Goroutines() // before the peers' connections are torn down
 	}
 	for _, p := range s.Peers {
 		p.mu.Lock()
